@@ -1,0 +1,7 @@
+// +build verif
+
+package fragmentation
+
+import "github.com/brewlin/net-protocol/pkg/verifhook"
+
+func verifYield(site string) { verifhook.Do(site) }
